@@ -63,7 +63,14 @@ def zeros(shape, salt=0, seed=0):
     """an all-zero operand (a freshly zero-initialised bias or weight)"""
     return np.zeros(shape)
 
-PATTERNS = {"zeros": zeros, "nonneg0": nonneg0, "offset": offset, "generic": generic, "positive": positive, "prob": prob, "with_zeros": with_zeros, "ties": ties}
+def large(shape, salt=0, seed=None):
+    """finite magnitudes beyond the float32 exp range (|x| in 89..700): a float64 kernel must not treat them as overflow"""
+    n = int(np.prod(shape, dtype=int))
+    tab = np.array([89.0, -89.5, 100.0, -120.0, 150.0, 95.0, -300.0, 700.0, 88.5, -88.25])
+    k = (np.arange(n) * 3 + salt) % len(tab)
+    return np.asarray(tab[k].reshape(shape), dtype=np.float64)
+
+PATTERNS = {"large": large, "zeros": zeros, "nonneg0": nonneg0, "offset": offset, "generic": generic, "positive": positive, "prob": prob, "with_zeros": with_zeros, "ties": ties}
 
 def make(pattern, shape, salt=0):
     return PATTERNS[pattern](tuple(shape), salt)
